@@ -400,6 +400,9 @@ class C14(v_hyp.Spec):
                 out.append({"status": "inconclusive",
                             "what": "reference evaluator %s != g++ %s" % (self._fmt(ref), self._fmt(gt))})
                 continue
+            if o.get("kind") == "skipped":
+                out.append({"status": "inconclusive", "what": o["crash"]})
+                continue
             if "crash" in o:
                 out.append({"status": "fail", "kind": o["kind"],
                             "what": "worker %s while evaluating `%s` (g++: %s %s): %s" %
